@@ -1,6 +1,8 @@
 package interp
 
 import (
+	"strings"
+	"os"
 	"fmt"
 	"go/token"
 	"go/types"
@@ -108,7 +110,7 @@ func (r *run) call(fn Value, args []Value) Value {
 	switch fn := fn.(type) {
 	case *ssa.Function:
 		if fn == nil {
-			panic(runtimePanic("call of nil function"))
+			panic(runtimePanic("call of nil function" + r.stackTail(5)))
 		}
 		return r.callSSA(fn, args, nil)
 	case *Closure:
@@ -936,6 +938,19 @@ func (r *run) callBuiltin(fn *ssa.Builtin, args []Value) Value {
 			return res
 		}
 	case "print", "println":
+		if os.Getenv("GOSYM_PRINT") != "" {
+			// development aid: harness println output (symbolic bytes shown as terms)
+			parts := make([]string, len(args))
+			for i, a := range args {
+				switch x := a.(type) {
+				case Str:
+					parts[i] = x.String()
+				default:
+					parts[i] = fmt.Sprint(x)
+				}
+			}
+			fmt.Fprintln(os.Stderr, "[println]", strings.Join(parts, " "))
+		}
 		return nil
 	case "panic":
 		panic(goPanic{v: args[0], msg: r.panicString(args[0])})
